@@ -44,6 +44,10 @@ def setup(ck):
     sim.attach()
 
 
+def _fam(desc):
+    return desc.get("grid", {}).get("family", "?") if isinstance(desc, dict) else "?"
+
+
 def lam_min(nx, cls):
     h = 1.0 / nx if cls == "single" else 1.0 / (nx - 1)
     return 4.0 / h**2 * math.sin(math.pi / (2 * (2 * nx + 1))) ** 2
@@ -88,10 +92,13 @@ def run_case(ck, desc):
         return False, None
     ev = sim.SIM_EVENTS.pop()
     ck.count("contract_evaluations.simulate")
-    pp, t = ev["pp"], ev["time"]
-    nt, nx = pp.shape
-    cls = desc["cls"]
     m_i, m_f = sim.frac_face_values(desc, res, fluid, time, sched)
+    return judge(ck, desc, desc["cls"], res, fluid, ev["time"], ev["pp"], sched, m_i, m_f)
+
+
+def judge(ck, desc, cls, res, fluid, t, pp, sched, m_i, m_f):
+    """The offline oracle over one logged simulate event (driver runs and pytest-workload runs)."""
+    nt, nx = pp.shape
     R = m_i - float(np.min(m_f))
     tol = 1e-9 * R + 1e-11 * abs(m_i)
     if not np.all(np.isfinite(pp)):
@@ -133,13 +140,13 @@ def run_case(ck, desc):
             ck.count("runs_time_monotonicity_strict")
             if not ck.margin("non-increasing in t (monotone dt)", max(worst, 0.0), tol):
                 i, j = np.unravel_index(int(np.argmax(rise)), rise.shape)
-                ck.violation("non-increasing-in-time", {"rise": worst, "rise/R": worst / max(R, 1e-300), "step": int(i), "node": int(j) + 1, "grid": desc["grid"]["family"]}, desc)
+                ck.violation("non-increasing-in-time", {"rise": worst, "rise/R": worst / max(R, 1e-300), "step": int(i), "node": int(j) + 1, "grid": _fam(desc)}, desc)
         elif worst > tol:
             i, j = np.unravel_index(int(np.argmax(rise)), rise.shape)
             r = sim.step_residuals(res, cls, t, pp, m_i, m_f, check_row0=True)
             lo, hi = r["bracket"]
             exact_scheme = r["worst_ratio"] <= 1 and r["row0_worst_ratio"] <= 1 and lo <= hi
-            detail = {"rise": worst, "rise/R": worst / max(R, 1e-300), "step": int(i), "node": int(j) + 1, "grid": desc["grid"]["family"], "exact_pinned_scheme": bool(exact_scheme), "row0_ratio": r["row0_worst_ratio"]}
+            detail = {"rise": worst, "rise/R": worst / max(R, 1e-300), "step": int(i), "node": int(j) + 1, "grid": _fam(desc), "exact_pinned_scheme": bool(exact_scheme), "row0_ratio": r["row0_worst_ratio"]}
             ck.note_max("K5_largest_rise/R", worst / max(R, 1e-300))
             known = "K5-time-monotonicity-on-irregular-dt" if (exact_scheme and worst < 2e-2 * R) else None
             ck.violation("non-increasing-in-time", detail, desc, known_key=known)
@@ -175,6 +182,11 @@ def finalize_shard(ck):
 
 
 def finalize(ck):
+    if ck.tier == "thorough":
+        # the repository's own tests as an additional monitored workload (DESIGN section 4)
+        from vf import pytest_monitors
+
+        pytest_monitors.run_repo_tests_under_monitors(ck, PID)
     if ck.monitors.get("contract_evaluations.simulate", 0) == 0:
         ck.inconclusive_because("the postcondition on simulate never fired")
     if ck.monitors.get("relaxation_cases", 0) == 0:
